@@ -131,12 +131,8 @@ GenE(ty, env, fns, d) ==
                 LET f == fns[Pick(FnsRet(fns, TBool))] IN Call(f.n, GenArgs(f.ps, env, fns, d - 1, 1))
            ELSE [k |-> "not", e |-> GenE(TBool, env, fns, d - 1)])
      [] ty.k = "str" ->
-          (IF c <= 7 THEN Bin("..", GenE(IF Chance(1, 2) THEN TStr ELSE Pick(Printable), env, fns, d - 1),
+          (IF c <= 8 THEN Bin("..", GenE(IF Chance(1, 2) THEN TStr ELSE Pick(Printable), env, fns, d - 1),
                                     GenE(Pick(Printable), env, fns, d - 1))
-           \* the text of an int / bool expression: (e).str()
-           \* (every other time of a constant expression, which the optimizer folds before the conversion)
-           ELSE IF c <= 9 THEN MCall(IF Chance(1, 2) THEN Bin(Pick({"+", "*", "-"}), I(Pick(0..9)), I(Pick(0..9)))
-                                     ELSE GenE(IF Chance(2, 3) THEN TInt ELSE TBool, env, fns, d - 1), "str", <<>>)
            ELSE [k |-> "ife", c |-> GenE(TBool, env, fns, d - 1), t |-> GenE(TStr, env, fns, d - 1), e |-> GenE(TStr, env, fns, d - 1)])
      [] ty.k = "flt" ->
           (IF c <= 8 THEN Bin(Pick({"+", "-", "*"}), GenE(TFlt, env, fns, d - 1), GenE(TFlt, env, fns, d - 1))
